@@ -100,6 +100,18 @@ def generate(rng, tier, mode="default"):
             out.append([hdr(cap, "2/1", "conf", "", "stack")] + ops + ["s0 peek", "s0 size", "s0 map", "i0 = s0 iter", "i0 next", "i0 replace 9", "i0 next", "s1 = s0 filter", "s0 filter_mut", "s0 destroy_cb", "END"])
     out.append(["T ? array default kind=stack", "s0 pop", "s0 peek", "s0 push 1", "s1 = s0 filter", "s0 push 2", "s1 = s0 filter", "z0 = s0 s1 zip", "z0 next", "z0 replace 5 6", "z0 next", "END"])
     out.append(["T ? array default", "h0 add 1", "h0 remove_last", "h0 remove_last", "h0 get_last", "h0 filter_mut", "h1 = h0 filter", "h0 trim", "h0 add 4", "h0 add 5", "END"])
+    # (h) capacities and factors whose buffer size in bytes is at or beyond what size_t can hold (the constructor
+    #     must refuse them; growth towards them must fail without touching the array), and the largest legal ones
+    for cap in (2**61 - 1, 2**61, 2**61 + 1, 2**62, 2**63, 2**64 - 3, 2**64 - 2, 2**64 - 1, 2**40):
+        for ef in ("2/1", "3/2", "7/1"):
+            for mem in ("conf", "libc"):
+                out.append([hdr(cap, ef, mem), "h0 add 5", "h0 add_at 6 0", "h0 size", "h0 get_last", "h1 = h0 copy_shallow", "h0 trim", "h0 destroy", "END"])
+                out.append([hdr(cap, ef, mem, "", "stack"), "s0 push 5", "s0 push 6", "s0 pop", "s0 size", "END"])
+    for cap in (1, 2, 4, 7):
+        for ef in ("2305843009213693952/1", "1152921504606846976/1", "576460752303423488/1", "4611686018427387904/3", "1000000000000/1"):
+            fill = ["h0 add %d" % (16 + k) for k in range(cap + 2)]
+            out.append([hdr(cap, ef, "conf")] + fill + ["h0 add_at 9 1", "h0 size", "h0 get_last", "i0 = h0 iter", "i0 next", "i0 add 70", "h0 remove_last", "h0 add 3", "END"])
+            out.append([hdr(cap, ef, "conf", "", "stack")] + ["s0 push %d" % k for k in range(cap + 2)] + ["s0 pop", "s0 size", "END"])
     # (g) random long histories crossing several growth steps
     n = 400 if quick else 6000
     ops1 = ["add %d", "add_at %d {i}", "replace_at %d {i}", "swap_at {i} {j}", "remove %d", "remove_at {i}", "remove_last", "get_at {i}", "index_of %d",
